@@ -41,12 +41,23 @@ impl Sym {
         let ext: Vec<(usize, &Vec<f64>)> = inflow.iter().filter(|(v, _)| map[*v as usize] != usize::MAX).map(|(v, p)| (map[*v as usize], p)).collect();
         let dmom = inflow.first().map(|(_, p)| p.len()).unwrap_or(0);
         let masses2: Vec<f64> = masses.iter().map(|m| m * m).collect();
+        // connected components of the full graph (the polynomials of a disconnected graph factorise:
+        // "spanning tree" = spanning forest with one tree per component, "2-forest" = one of those trees cut in two)
+        let mut p0: Vec<usize> = (0..nv).collect();
+        for e in 0..ne {
+            let (ra, rb) = (find(&mut p0, edges[e].0), find(&mut p0, edges[e].1));
+            if ra != rb {
+                p0[ra] = rb;
+            }
+        }
+        let comp0: Vec<usize> = (0..nv).map(|v| find(&mut p0, v)).collect();
+        let ncomp0 = (0..nv).filter(|&v| comp0[v] == v).count();
         let mut trees = vec![];
         let mut forests = vec![];
         let mut mass_sq_terms = vec![];
         for m in 0..=full {
             let k = (m as u64).count_ones() as usize;
-            if k + 1 != nv && k + 2 != nv {
+            if k + ncomp0 != nv && k + ncomp0 + 1 != nv {
                 continue;
             }
             let mut p: Vec<usize> = (0..nv).collect();
@@ -65,7 +76,7 @@ impl Sym {
             if !acyclic {
                 continue;
             }
-            if k + 1 == nv {
+            if k + ncomp0 == nv {
                 trees.push(m);
                 for e in 0..ne {
                     if m >> e & 1 == 0 && masses2[e] > 0.0 {
@@ -73,12 +84,27 @@ impl Sym {
                     }
                 }
             } else {
-                // 2-forest: two components
-                let r0 = find(&mut p, 0);
-                let in_t1: Vec<bool> = (0..nv).map(|v| find(&mut p, v) == r0).collect();
+                // exactly one original component is cut in two: T1 = the part containing its first vertex
+                let roots: Vec<usize> = (0..nv).map(|v| find(&mut p, v)).collect();
+                let mut split = usize::MAX;
+                let mut first_root: Vec<usize> = vec![usize::MAX; nv];
+                for v in 0..nv {
+                    let c0 = comp0[v];
+                    if first_root[c0] == usize::MAX {
+                        first_root[c0] = roots[v];
+                    } else if first_root[c0] != roots[v] {
+                        split = c0;
+                    }
+                }
+                if split == usize::MAX {
+                    continue;
+                }
+                let in_t1: Vec<bool> = (0..nv).map(|v| comp0[v] == split && roots[v] == first_root[split]).collect();
+                let in_split: Vec<bool> = (0..nv).map(|v| comp0[v] == split).collect();
                 let n_in = ext.iter().filter(|(v, _)| in_t1[*v]).count();
+                let n_comp = ext.iter().filter(|(v, _)| in_split[*v]).count();
                 let mut c = 0.0;
-                if n_in != 0 && n_in != ext.len() {
+                if n_in != 0 && n_in != n_comp {
                     let mut qv = vec![0.0; dmom];
                     for (v, pm) in &ext {
                         if in_t1[*v] {
@@ -89,9 +115,10 @@ impl Sym {
                     }
                     c = qv.iter().map(|a| a * a).sum();
                 }
-                // mass terms merged: edges joining the two trees
+                // mass terms merged: edges joining the two parts
                 for e in 0..ne {
-                    if m >> e & 1 == 0 && masses2[e] > 0.0 && in_t1[edges[e].0] != in_t1[edges[e].1] {
+                    let (a, b) = edges[e];
+                    if m >> e & 1 == 0 && masses2[e] > 0.0 && in_split[a] && in_split[b] && in_t1[a] != in_t1[b] {
                         c += masses2[e];
                     }
                 }
